@@ -1438,8 +1438,9 @@ impl SubRule {
                                     segment.apply_seg_mods(&self.alphas, mods.nodes, mods.feats, item.position, false)?;
                                     len = match mods.suprs.length {
                                         [None, None] => bound_len,
-                                        [None, Some(v)] => if v.as_bool(&self.alphas, item.position)? { 3 } else { 1 },
-                                        [Some(l), None] => if l.as_bool(&self.alphas, item.position)? { 2 } else { 1 },
+                                        // alone, `[-overlong]` is at most long and `[+long]` at least long, as everywhere else
+                                        [None, Some(v)] => if v.as_bool(&self.alphas, item.position)? { 3 } else { bound_len.min(2) },
+                                        [Some(l), None] => if l.as_bool(&self.alphas, item.position)? { bound_len.max(2) } else { 1 },
                                         [Some(l), Some(v)] => match (l.as_bool(&self.alphas, item.position)?, v.as_bool(&self.alphas, item.position)?) {
                                             (true, true)   => 3,
                                             (true, false)  => 2,
